@@ -55,4 +55,6 @@ func c05(c *Ctx) {
 		"a refused call that already replaced or removed a counter context makes the stream's continuity counter jump")
 	extrarules.WhoMayStoreField(c.P, r, "CC-ctx", "Muxer.esContexts/stored-by", "Muxer", "esContexts", []string{"NewMuxer"}, 1, nil, "stores",
 		"replacing the context map restarts every stream's continuity counter")
+	// the packets WriteData builds fill the packet exactly, so writePacket never rejects one whose counter value is consumed (F1)
+	c04ExactFill(c)
 }
